@@ -208,7 +208,8 @@ TraceDumped  == IsEvent("Dumped") /\ UNCHANGED <<w, res>>
 TraceSinkOps == IsEvent("SinkOps") /\ ~ev.drop_panic /\ UNCHANGED <<w, res>>   \* bookkeeping; a panicking Drop is never acceptable
 TraceLoad    == IsEvent("Load") /\ UNCHANGED <<w, res>>       \* a foreign archive made available as a source
 \* finish() and drop produced identical bytes for the same program (C01)
-TraceCompare == IsEvent("Compare") /\ ev.eq /\ UNCHANGED <<w, res>>
+\* finish() and drop (or two sinks with different short-write behaviour) produced the same bytes - whenever both runs completed
+TraceCompare == IsEvent("Compare") /\ Check(ev.both => ev.eq) /\ UNCHANGED <<w, res>>
 
 \* ---- diagnostics: explain a rejection of an observation event (never enables a step) ---------
 FirstBad(n, P(_)) == IF \E i \in 1..n : ~P(i) THEN CHOOSE i \in 1..n : ~P(i) /\ \A j \in 1..(i-1) : P(j) ELSE 0
